@@ -54,7 +54,8 @@ type env struct {
 	store       db.DB
 	kmc         *keystore.KeystoreManagerForPoC
 	pub         int
-	priv        int // believed current private passphrase index, -1 = none yet
+	priv        int    // believed current private passphrase index, -1 = none yet
+	sameDigest  []byte // when set, every 32-byte signing request uses this digest
 	passes      []string
 	wf          []bool
 	seeds       [][]byte
@@ -678,6 +679,10 @@ func (e *env) opSign(t triple, dlen int) (string, string) {
 	}
 	digest := make([]byte, dlen)
 	e.h.Rng.Read(digest)
+	if e.sameDigest != nil && dlen == 32 {
+		// the same digest for every key (whatever the wallet remembers about a request must name the key)
+		copy(digest, e.sameDigest)
+	}
 	sig, err := e.kmc.SignHash(pk, digest)
 	if err != nil {
 		// C05: an issued key of a managed keystore must be able to sign whenever the wallet is unlocked
@@ -709,6 +714,9 @@ func (e *env) opSign(t triple, dlen int) (string, string) {
 	}
 	// the message variant
 	msg := []byte("message-" + strconv.Itoa(int(t.idx)))
+	if e.sameDigest != nil {
+		msg = []byte("one message for every key")
+	}
 	if sig2, err := e.kmc.SignMessage(pk, msg); err == nil {
 		if !sig2.Verify(digestOf(msg), pk) {
 			e.fail("C05", "message-signature-does-not-verify", "SignMessage for keystore %d %d/%d does not verify", t.id, t.branch, t.idx)
@@ -994,10 +1002,13 @@ func (e *env) audit() {
 	if !e.unlocked && e.priv >= 0 {
 		e.do(e.opUnlock(e.priv))
 	}
+	e.sameDigest = make([]byte, 32)
+	e.h.Rng.Read(e.sameDigest)
 	for _, t := range ts {
 		e.h.Emit(e.opOrdinal(t))
 		e.h.Emit(e.opSign(t, 32))
 	}
+	e.sameDigest = nil
 }
 
 // scenarioMany: keystores with many keys on both branches, issued while the wallet is LOCKED (public derivation),
@@ -1261,7 +1272,13 @@ func main() {
 	if *focus == "C05F" { // the fault enumeration restricted to key issuance, judged by the C05 oracle
 		e.focus = "C05"
 	}
-	if *focus == "C12" || *focus == "C03F" || *focus == "C05F" {
+	if *focus == "C02F" { // the fault enumeration over public-passphrase changes, judged by C02
+		e.focus = "C02"
+	}
+	if *focus == "C06F" { // the fault enumeration restricted to plot-key issuance on one keystore, judged by the C06 oracle
+		e.focus = "C06"
+	}
+	if *focus == "C12" || *focus == "C03F" || *focus == "C05F" || *focus == "C06F" || *focus == "C02F" {
 		e.idOf, e.nameOf = map[string]int{}, map[int]string{}
 		e.c = &ctl{}
 		runFaults(e)
